@@ -35,6 +35,25 @@ claim("C04", "symx",
       "reals not floats (A1); kabsch and 2-D qhull replaced by contract stubs; simplicity of the input is a precondition (orientation predicates); z3/sympy trusted",
       "DESIGN.md §6 C04")
 
+claim("C01", "symx",
+      "bounded symbolic execution + SMT (z3 QF_NRA) of the real ConvexPolyhedron constructor and measure getters",
+      "The real constructor (exact hull stub with several qhull output orders, _combine_simplices, _sort_simplices, sort_faces) and all measure getters are "
+      "executed on ten base solids (4-12 vertices, incl. irregular kite/trapezoid facets and coplanar lattice facets) placed by a free scale s>0, a free "
+      "translation and rational rotations, with the input vertices in several orders, plus a tetrahedron with all 12 coordinates free; volume, total and "
+      "per-face area, centroid, face centroids and the inertia tensor are compared with signed-tetrahedron sums over an independently computed facet list; "
+      "z3 shows every residual cannot be non-zero on the explored paths. Bounded: base set, path budget (the sorting code forks on the placement), "
+      "unrefuted alternatives are counted in the evidence.",
+      "reals not floats (A1); qhull and kabsch as contract stubs; z3/sympy trusted",
+      "DESIGN.md §6 C01")
+claim("C06", "symx",
+      "symbolic execution of the real is_inside with a free query point (piecewise-constant terms); z3 decides impl <=> exact membership for all points",
+      "Polygon/ConvexPolygon.is_inside run once per concrete rational polygon (3-12 vertices, convex and non-convex, both orientations, xy-plane and tilted "
+      "planes, default/explicit normals, three in-plane kabsch rotations, (3,), (N,3), (N,2) inputs, batches of 3) with the query point free in the polygon's "
+      "plane; one QF_LRA query per obligation shows the result equals crossing parity for every point of the plane outside a 1e-3 band around the boundary, "
+      "including the measure-zero alignments the winding-number code special-cases. Circle/Ellipse: radius/semi-axes, centre and point all free (QF_NRA).",
+      "reals not floats (A1); kabsch contract stub; polygons from a concrete base list; z3 trusted",
+      "DESIGN.md §6 C06")
+
 ALL = ["C%02d" % i for i in range(1, 21)]
 
 
